@@ -2,10 +2,10 @@
 from qty_common import QTY_TRUSTED
 
 CFG = dict(
-    lean_modules=["NumbatModel.Props.C21", "NumbatModel.Inst.Real"],
+    lean_modules=["NumbatModel.Props.C21", "NumbatModel.Inst.Real", "NumbatModel.Oblig.UnitTable"],
     driver="drv_c21",
     harness="c21",
-    gens=[],
+    gens=["gen_units:generate"],
     level="proof",
     trusted_base=QTY_TRUSTED + [
         "ffi/procedures.rs assert / assert_eq modelled as assertBool / assertEq2 / assertEq3 (Model/Qty.lean); Value "
